@@ -1266,7 +1266,37 @@ func chanFieldName(ch ssa.Value) string {
 	return ch.Name()
 }
 
+// onRecvClauses: `on-recv <chan> gf(name, ref)`: after a comma-ok receive on that channel the ghost field holds 1 if the
+// channel was found closed (ok == false), else 0. This is how "the producer has finished" outlives the call.
+func (fr *frame) onRecvClauses(ch ssa.Value, ok string, st *State, g string) {
+	root := fr.rootFr
+	if root.contract == nil {
+		return
+	}
+	name := chanFieldName(ch)
+	for _, c := range root.contract.Get("on-recv") {
+		f := strings.Fields(c.Text)
+		if len(f) < 2 || f[0] != name {
+			continue
+		}
+		e, err := ParseExpr(strings.TrimSpace(c.Text[len(f[0]):]))
+		if err != nil {
+			fr.vc.specErrors = append(fr.vc.specErrors, "on-recv: "+err.Error())
+			continue
+		}
+		env := root.specEnvAt(st)
+		addr, t, isL := env.lvalue(e)
+		if !isL {
+			fr.vc.specErrors = append(fr.vc.specErrors, "on-recv: not a ghost field")
+			continue
+		}
+		cur := fr.vc.load(st, addr, t)
+		fr.vc.store(st, addr, t, "(ite "+g+" (ite "+ok+" 0 1) "+cur+")")
+	}
+}
+
 func (fr *frame) ghostRecvOk(ch ssa.Value, ok string, st *State, g string) {
+	fr.onRecvClauses(ch, ok, st, g)
 	// ghost "<field>.exhausted" := !ok
 	name := chanFieldName(ch)
 	k := "exhausted:" + name
